@@ -9,14 +9,16 @@ from lib.engine import R, V, enum_part, hyp_part
 ID = 'C06'
 RULE = ('dates 1900-01-01..2099-12-31 (Hypothesis, biased to month ends, leap days incl. 2000-02-29, day<=12 vs >12) x every layout of the culture '
         '(16 English layouts; ISO, numeric day-first with / - ., month-name layout for es, fr, pt, it, de, nl; ISO and 年月日 for zh) x two reference '
-        'datetimes 1950-2090 x carrier; thorough adds every day of 8 years x every English layout; non-trivial = day <= 12 and day != month '
+        'datetimes 1950-2090 (the second one in 4 of 7 cases related to the written date: same year, same day, day after, Dec 31 of that year) x carrier; '
+        'day written as an ordinal word/sign (en fourteenth of March 2019, pt/es 1º de ..., it 1°, fr 1er/premier, nl 14e, de zweiten) x every month x references '
+        'in another year / the same year / on the same day (enumerated); thorough adds every day of 8 years x every English layout; non-trivial = day <= 12 and day != month '
         '(a swap would show), or a leap day, or a month end; distinct = (culture, query)')
 ASSUMPTIONS = ['month names and layouts are typed into the harness; carriers are static sentences']
 
 
 def build(case):
     d = dt.date.fromisoformat(case['date'])
-    expr = G.layouts(case['culture'])[case['layout']](d)
+    expr = G.any_layout(case['culture'], case['layout'])(d)
     q = case['carrier'].format(expr)
     return q, q.index(expr), expr, d
 
@@ -54,10 +56,49 @@ def run_case(case):
 
 def cases(culture):
     names = sorted(G.layouts(culture))
-    return st.builds(lambda d, l, r1, r2, ci, pre: {'culture': culture, 'date': d.isoformat(), 'layout': l, 'ref': r1, 'ref2': r2,
-                                                    'carrier': G.DATE_CARRIERS[culture][ci % len(G.DATE_CARRIERS[culture])], 'pre': pre},
+    return st.builds(lambda d, l, r1, r2, ci, pre, rel: {'culture': culture, 'date': d.isoformat(), 'layout': l, 'ref': r1,
+                                                         'ref2': related_ref(d.isoformat(), rel, r2),
+                                                         'carrier': G.DATE_CARRIERS[culture][ci % len(G.DATE_CARRIERS[culture])], 'pre': pre},
                      G.dates(), st.sampled_from(names), G.refs(), G.refs(), st.integers(0, 11),
-                     st.sampled_from([None, None, None, 'I left before {}', 'after {} it rained', 'since {}']))
+                     st.sampled_from([None, None, None, 'I left before {}', 'after {} it rained', 'since {}']),
+                     st.sampled_from([0, 0, 0, 1, 2, 3, 4]))
+
+
+def related_ref(date_iso, rel, fallback):
+    """a reference datetime that is related to the written date: in the same year, on the same day, the day after (a parser that decides
+    "no year was written" by comparing with the reference would show here); None/0 = the independent random reference"""
+    d = dt.date.fromisoformat(date_iso)
+    if not rel or not 1950 <= d.year <= 2090:
+        return fallback
+    if rel == 1:
+        x = dt.datetime(d.year, 6, 15, 10, 0, 0) if (d.month, d.day) != (6, 15) else dt.datetime(d.year, 1, 2, 10, 0, 0)
+    elif rel == 2:
+        x = dt.datetime(d.year, d.month, d.day, 12, 0, 0)
+    elif rel == 3:
+        x = dt.datetime(d.year, d.month, d.day) + dt.timedelta(days=1, hours=8)
+    else:
+        x = dt.datetime(d.year, 12, 31, 23, 59, 59)
+    return x.isoformat() if 1950 <= x.year <= 2090 else fallback
+
+
+def ordinal_day_forms(years):
+    """Deterministic part: the day written as an ordinal word / sign (forms that go through the parsers' number-with-month path) x every month
+    x given years x references in another year, in the same year and on the same day"""
+    def gen():
+        i = 0
+        for c in sorted(G.ORDINAL_LAYOUTS):
+            for name in sorted(G.ORDINAL_LAYOUTS[c]):
+                for y in years:
+                    for m in range(1, 13):
+                        for day in (1, 2, 14, 21, 28):
+                            d = dt.date(y, m, day)
+                            if G.ORDINAL_LAYOUTS[c][name](d) is None:
+                                continue
+                            i += 1
+                            yield {'culture': c, 'date': d.isoformat(), 'layout': name, 'ref': '2016-11-07T00:00:00' if y != 2016 else '1999-12-31T23:59:59',
+                                   'ref2': related_ref(d.isoformat(), 1 + i % 4, '2087-02-28T08:30:00'),
+                                   'carrier': G.DATE_CARRIERS[c][i % len(G.DATE_CARRIERS[c])]}
+    return gen
 
 
 def every_day():
@@ -90,7 +131,8 @@ def special_dates(cultures, years):
                 for d in sorted(days):
                     for name in sorted(G.layouts(c)):
                         i += 1
-                        yield {'culture': c, 'date': d.isoformat(), 'layout': name, 'ref': refs[i % 4], 'ref2': refs[(i + 1) % 4],
+                        yield {'culture': c, 'date': d.isoformat(), 'layout': name, 'ref': refs[i % 4],
+                               'ref2': related_ref(d.isoformat(), (i % 3 == 0) and 1 + (i // 3) % 4, refs[(i + 1) % 4]),
                                'carrier': G.DATE_CARRIERS[c][i % len(G.DATE_CARRIERS[c])]}
     return gen
 
@@ -104,6 +146,8 @@ def parts(tier, seed):
                         exhaustive=True))
     ps.append(enum_part('special-dates-other', special_dates(G.DT_CULTURES[1:], [2000, 2019, 2096] if q else [1900, 1999, 2000, 2016, 2019, 2020, 2096, 2099]),
                         run_case, exhaustive=True))
+    ps.append(enum_part('ordinal-day-forms', ordinal_day_forms([2019, 2000] if q else [1950, 1999, 2000, 2016, 2019, 2020, 2024, 2090]), run_case,
+                        exhaustive=True))
     if not q:
         ps.append(enum_part('en-every-day-8-years', every_day, run_case, exhaustive=True))
     return ps
